@@ -455,7 +455,9 @@ class Check(PropertyCheck):
                 # renderers `dotted` / `mappedText` that the read-back theorems are stated for
                 import socket
                 out["ntop"] = (hx(socket.inet_ntop(socket.AF_INET, a.packed).encode()) + " " +
-                               hx(socket.inet_ntop(socket.AF_INET6, b"\0" * 10 + b"\xff\xff" + a.packed).encode()))
+                               hx(socket.inet_ntop(socket.AF_INET6, b"\0" * 10 + b"\xff\xff" + a.packed).encode()) + " " +
+                               # and the hexadecimal mapped form as ipaddress itself prints it (renderer `mappedHexText`)
+                               hx(str(ipaddress.IPv6Address(MAPPED + int(a))).encode()))
             return out
         peer = peer_text(case)
         h, w = e.run(peer, case["mode"], case["bg"], case["bp"])
